@@ -98,6 +98,10 @@ pub trait DynIter<T> {
     /// by-value consumers (an implementation may override them)
     fn last_(self: Box<Self>) -> Option<T>;
     fn count_(self: Box<Self>) -> usize;
+    /// `for_each` (built on `fold`, which an implementation may override)
+    fn for_each_(self: Box<Self>, f: &mut dyn FnMut(T));
+    /// `find` (built on `try_fold`)
+    fn find_(&mut self, pred: &mut dyn FnMut(&T) -> bool) -> Option<T>;
     /// `None` = the type does not declare ExactSizeIterator
     fn xlen(&self) -> Option<usize>;
     fn hint(&self) -> (usize, Option<usize>);
@@ -114,6 +118,8 @@ macro_rules! dyn_iter_impl {
             fn nth_back(&mut self, k: usize) -> Option<Option<$item>> { (&mut self.0).nth_back_(k) }
             fn last_(self: Box<Self>) -> Option<$item> { self.0 .0.last() }
             fn count_(self: Box<Self>) -> usize { self.0 .0.count() }
+            fn for_each_(self: Box<Self>, f: &mut dyn FnMut($item)) { self.0 .0.for_each(|t| f(t)) }
+            fn find_(&mut self, pred: &mut dyn FnMut(&$item) -> bool) -> Option<$item> { self.0 .0.find(|t| pred(t)) }
             fn xlen(&self) -> Option<usize> { (&self.0).xlen() }
             fn hint(&self) -> (usize, Option<usize>) { self.0 .0.size_hint() }
             fn fused(&self) -> bool { (&self.0).fused() }
